@@ -793,6 +793,7 @@ def native_search(workdir, ob, seconds=25):
     for k, tup in enumerate(ns.get('seeds', [])):     # inputs known to have failed once are tried first
         L.append('    if (it == %d) { %s }' % (k, ' '.join('%s = (%s)%dULL;' % (n, t, v) for (t, n), v in zip(ins, tup))))
     L.append('    if (it %% 3 == 1 && it > 64) { %s }' % ' '.join('%s = %s;' % (n, ins[0][1]) for t, n in ins[1:2]))   # equal operands now and then
+    if ns.get('adjust'): L.append('    if (it >= %d) { %s }' % (len(ns.get('seeds', [])), ns['adjust']))     # steer random picks into the precondition
     L.append('    if (!(%s)) continue;' % ns['pre'])
     L.append('    %s r = %s;' % (ns['ret'], ns['call']))
     L.append('    if (!(%s)) { std::printf("FOUND %s\\n", %s); return 1; }' % (ns['post'], ' '.join('%llx' for _ in ins), ', '.join('(unsigned long long)%s' % n for t, n in ins)))
